@@ -72,7 +72,9 @@ let info_text prefix = function
 
 let b01 b = if b then "1" else "0"
 
-let run_db_engine (s : script) : string list =
+(* one traversal for both output modes: per operation the text line of the trace and the numeric code of the
+   same result computed by the EXTRACTED serialiser of coq/Codes/CodesDb.v (extraction cross-check) *)
+let db_traverse (s : script) : (string * n list) list =
   let ci k = n_of_int (cfg_int s k 0) in
   let cfg = { max_bi = ci "mb"; max_dbi = ci "mdb"; max_bos = ci "mbos"; max_ctr = ci "mc";
               max_fctr = ci "mfc"; max_ai = ci "ma"; max_aos = ci "maos"; max_oct = ci "mo" } in
@@ -84,7 +86,7 @@ let run_db_engine (s : script) : string list =
   let maxsel = match List.assoc_opt "maxsel" s.cfg with Some x -> Some (n_of_dec x) | None -> None in
   let d = ref (db_new maxsel c0 cfg) in
   let obs = ref [] in
-  let emit l = obs := l :: !obs in
+  let emit l c = obs := (l, c) :: !obs in
   List.iter (fun op ->
     match op with
     | "add" :: ty :: idx :: cl :: sv :: ev :: rest ->
@@ -97,22 +99,24 @@ let run_db_engine (s : script) : string list =
         else { pc_class = class_of cl; pc_svar = svar_tok sv; pc_evar = evar_tok ev; pc_deadband = deadband } in
       if is_analog t && deadband <> N0 then failwith "analog dead-band other than 0.0 is not modelled";
       let (d', ok) = db_add !d t (n_of_dec idx) pc in
-      d := d'; emit ("add " ^ b01 ok)
+      d := d'; emit ("add " ^ b01 ok) (cx_db_add ok)
     | ["rm"; ty; idx] ->
       let (d', ok) = db_remove !d (ptype_of ty) (n_of_dec idx) in
-      d := d'; emit ("rm " ^ b01 ok)
+      d := d'; emit ("rm " ^ b01 ok) (cx_db_rm ok)
     | ["upd"; ty; idx; v; flags; time; mode] ->
       let t = ptype_of ty in
       let (us, m) = mode_of mode in
       let (d', info) = db_update !d t (n_of_dec idx) (meas_of t v flags time) us m in
-      d := d'; emit (info_text "upd" info)
+      d := d'; emit (info_text "upd" info) (cx_db_upd info)
     | ["updf"; ty; idx; flags; time; mode] ->
       let (us, m) = mode_of mode in
       let (d', info) = db_update_flags !d (ptype_of ty) (n_of_dec idx) (n_of_dec flags) (time_of time) us m in
-      d := d'; emit (info_text "updf" info)
+      d := d'; emit (info_text "updf" info) (cx_db_updf info)
     | ["get"; ty; idx] ->
       let t = ptype_of ty in
-      (match db_get !d t (n_of_dec idx) with
+      let r = db_get !d t (n_of_dec idx) in
+      let emit l = emit l (cx_db_get r) in
+      (match r with
        | None -> emit "get none"
        | Some m ->
          let v = match t with
@@ -128,32 +132,41 @@ let run_db_engine (s : script) : string list =
         | ["r8"; a; b] | ["r16"; a; b] -> QRange (n_of_dec a, n_of_dec b)
         | _ -> failwith "bad qualifier" in
       (match read_header_of (n_of_dec g) (n_of_dec v) q with
-       | None -> emit "sel unsupported"
+       | None -> emit "sel unsupported" (cx_db_sel None)
        | Some h ->
          let (d', iin) = db_select !d h in
-         d := d'; emit ("sel " ^ dec iin))
+         d := d'; emit ("sel " ^ dec iin) (cx_db_sel (Some iin)))
     | ["selm"; m] ->
       let (d', n) = db_select_event_classes !d (m.[0] = '1') (m.[1] = '1') (m.[2] = '1') in
-      d := d'; emit ("selm " ^ dec n)
+      d := d'; emit ("selm " ^ dec n) (cx_db_selm n)
     | ["wr"; budget] ->
-      let (d', ((bytes, has_events), complete)) = db_write_response !d (n_of_dec budget) in
-      d := d'; emit (Printf.sprintf "wr %s %s %s" (hex bytes) (b01 has_events) (b01 complete))
+      let (d', r) = db_write_response !d (n_of_dec budget) in
+      let ((bytes, has_events), complete) = r in
+      d := d'; emit (Printf.sprintf "wr %s %s %s" (hex bytes) (b01 has_events) (b01 complete)) (cx_db_wr r)
     | ["wre"; budget] ->
-      let (d', (bytes, n)) = db_write_events_only !d (n_of_dec budget) in
-      d := d'; emit (Printf.sprintf "wre %s %s" (hex bytes) (dec n))
+      let (d', r) = db_write_events_only !d (n_of_dec budget) in
+      let (bytes, n) = r in
+      d := d'; emit (Printf.sprintf "wre %s %s" (hex bytes) (dec n)) (cx_db_wre r)
     | ["clr"] ->
-      let (d', (ids, c)) = db_clear_written !d in
+      let (d', r) = db_clear_written !d in
+      let (ids, c) = r in
+      let emit l = emit l (cx_db_clr r) in
       d := d';
       let ids = if ids = [] then "-" else String.concat " " (List.map dec ids) in
       emit (Printf.sprintf "clr %s | %s %s %s | %s %s %s %s %s %s %s %s" ids
               (dec c.c_c1) (dec c.c_c2) (dec c.c_c3)
               (dec c.c_bi) (dec c.c_dbi) (dec c.c_bos) (dec c.c_ctr) (dec c.c_fctr)
               (dec c.c_ai) (dec c.c_aos) (dec c.c_oct))
-    | ["rst"] -> d := db_reset !d; emit "rst"
+    | ["rst"] -> d := db_reset !d; emit "rst" cx_db_rst
     | ["iin"] ->
-      let ((c1, c2), c3) = db_unwritten_classes !d in
-      emit (Printf.sprintf "iin %s%s%s %s" (b01 c1) (b01 c2) (b01 c3) (b01 (db_is_overflown !d)))
+      let cl = db_unwritten_classes !d in
+      let ((c1, c2), c3) = cl in
+      let ovf = db_is_overflown !d in
+      emit (Printf.sprintf "iin %s%s%s %s" (b01 c1) (b01 c2) (b01 c3) (b01 ovf)) (cx_db_iin cl ovf)
     | _ -> failwith ("db engine: bad op " ^ String.concat "_" op)) s.ops;
-  List.rev ("end" :: !obs)
+  List.rev !obs
 
-let () = register "db" run_db_engine
+let run_db_engine (s : script) : string list = List.map fst (db_traverse s) @ ["end"]
+let run_db_codes (s : script) : string list = List.map (fun (_, c) -> code_line c) (db_traverse s)
+
+let () = register "db" run_db_engine; register_coder "db" run_db_codes
